@@ -23,7 +23,9 @@ Init == /\ tid \in 1..Len(Traces) /\ l = 1
 \* ----- static / plain events: the logged return id r must be producible by an enabled Abs action
 StaticStep(e) ==
     LET r == e.ret IN
-    IF e.a = "restatic"
+    IF e.a = "sib"          \* a call on the sibling sampler: nothing changes for the observed one
+    THEN UNCHANGED <<interval, cur, run, rrun, nfresh, ret>> /\ verdict' = (IF "exc" \in DOMAIN e THEN Bad("sibling-call-failed:" \o e.exc) ELSE verdict)
+    ELSE IF e.a = "restatic"
     THEN A!Restatic(e.iv) /\ verdict' = verdict
     ELSE IF "exc" \in DOMAIN e
     THEN verdict' = Bad("call-failed:" \o e.exc) /\ UNCHANGED <<interval, cur, run, rrun, nfresh, ret>>
